@@ -15,8 +15,9 @@ first: `RejectsType` = the type step is an error, or it is `ImageDataFlushed` (n
 beyond the four type bytes) and the re-parse of the same bytes — the first thing the next call does —
 is an error.
 
-GENUINE FINDING kept visible: `empty_chunk_unparsed` — a chunk of length 0 is never handed to its
-parser, so an empty second IHDR / second PLTE / fcTL is accepted silently (`empty_second_ihdr_accepted`).
+Every theorem about a chunk parser holds for EVERY body, the empty one included: since f31d047 a chunk of length 0
+is parsed like any other (`every_chunk_parsed`, `empty_chunk_parsed`); the former finding "an empty second IHDR /
+PLTE / fcTL is accepted silently" is repaired — it is `DuplicateChunk` / `ChunkTooShort` now (decided examples).
 
 `automaton_sound` (simulation by an explicit reference automaton, for runs of any length) and
 `automaton_language` (what that automaton accepts) are in the second half of the file.
@@ -49,7 +50,7 @@ theorem signature_checked (cfg : Cfg) (d : Dec) (b0 b1 b2 b3 : UInt8) :
     · assumption
     · cases hr
 
-/-- **No chunk before IHDR**: before a (non-empty) IHDR was parsed every other chunk type is refused -/
+/-- **No chunk before IHDR**: before an IHDR was parsed every other chunk type is refused -/
 theorem chunk_before_ihdr (cfg : Cfg) (d : Dec) (len : Nat) (b0 b1 b2 b3 : UInt8)
     (hinfo : d.info = none) (ht : be32 b0 b1 b2 b3 ≠ IHDR) :
     parseU32 cfg d (.type len) b0 b1 b2 b3 = .error (.format "ChunkBeforeIhdr") := by
@@ -90,7 +91,7 @@ theorem ihdr_short_rejected (d : Dec) (h : d.raw.length < 13) : ∃ e, parseIhdr
   · exact he
   · have := (parseIhdr_shape hok).2.1; omega
 
-/-- **A second IHDR is refused** (with a non-empty body — see `empty_chunk_unparsed`) -/
+/-- **A second IHDR is refused**, whatever its body (the empty body included: `every_chunk_parsed`) -/
 theorem second_ihdr_rejected (cfg : Cfg) (d : Dec) (h : d.info.isSome = true) :
     parseIhdr d = .error (.format "DuplicateChunk IHDR") ∧
     parseChunk cfg d IHDR = .error (.format "DuplicateChunk IHDR") := by
@@ -111,7 +112,7 @@ theorem ihdr_accepted_is_legal (d d' : Dec) (ev : Ev) (h : parseIhdr d = .ok (d'
 
 /-! ## PLTE -/
 
-/-- **A second PLTE is refused** (with a non-empty body) -/
+/-- **A second PLTE is refused**, whatever its body (the empty body included) -/
 theorem second_plte_rejected (cfg : Cfg) (d : Dec) (i : Info) (hi : d.info = some i) (hp : i.palette.isSome = true) :
     parsePlte d = .error (.format "DuplicateChunk PLTE") ∧
     parseChunk cfg d PLTE = .error (.format "DuplicateChunk PLTE") := by
@@ -324,7 +325,7 @@ theorem no_image_data (cfg : Cfg) (d d' : Dec) (b0 b1 b2 b3 : UInt8) (ev : Ev) (
     (h : parseU32 cfg d (.crc IEND) b0 b1 b2 b3 = .ok (ev, d')) : ev = .imageEnd ∧ d' = d ∧ d'.state = none := by
   rw [parseU32_crc] at h
   have hc : isCritical IEND = true := by decide
-  simp only [hc, Bool.not_true, Bool.false_eq_true, and_false, if_false, if_true] at h
+  simp only [hc, Bool.not_true, Bool.false_eq_true, and_false, false_and, if_false, if_true] at h
   repeat' split at h
   all_goals first | (cases h; done) | (cases h; exact ⟨rfl, rfl, hd⟩)
 
@@ -338,7 +339,7 @@ theorem reader_missing_image_data (cfg : Cfg) (fuel : Nat) (r r' : Reader.R)
 
 `Framing.K` = `(infoSet, havePlte, haveIdat, readyIdat, readyFdat, inData)` is the chunk-kind-level state,
 `Framing.proj : Dec → K` the projection, `Framing.KTrans` the explicit reference automaton over the actions
-`begin t` (`ChunkBegin`), `flush t` (`ImageDataFlushed`), `parsed t` (`parse_chunk` succeeded on a NON-EMPTY body)
+`begin t` (`ChunkBegin`), `flush t` (`ImageDataFlushed`), `parsed t` (`parse_chunk` succeeded on the complete body, of any length)
 and `tau` (everything else).  It encodes only the ORDERING rules the property lists.  Not part of `K` (handled by
 the theorems above instead): consecutive sequence numbers (`seqno_consecutive`, `fctl_seqno_consecutive`) and
 "some image data before IEND" (`no_image_data` + the reader). -/
@@ -395,7 +396,7 @@ theorem automaton_labels (d d' : Dec) (st : St) (ev : Ev) :
     | imageData t' => exact ⟨fun h => (by cases h), fun ⟨h, _⟩ => (by cases h)⟩
 
 /-- **What the reference automaton accepts** (hence, by `automaton_sound`, what any run of the model does):
-    IHDR first; a (non-empty) IHDR at most once; a (non-empty) PLTE at most once; IDATs consecutive; an fdAT
+    IHDR first; an IHDR at most once; a PLTE at most once; IDATs consecutive; an fdAT
     run needs an fcTL since the previous data run -/
 theorem automaton_language :
     (∀ (k k' : K) (l1 : List Label) (t : ChunkType), KRun k (l1 ++ [.begin t]) k' → k.infoSet = false →
@@ -427,32 +428,124 @@ theorem model_orders_chunks (cfg : Cfg) (opts : Options) (f : Nat) (buf : Bytes)
     obtain ⟨km, h1, _⟩ := KRun.append_iff.mp hrun
     exact h1.fdat_needs_fctl rfl
 
-/-! ## GENUINE FINDING: chunks of length 0 are never parsed -/
+/-! ## every chunk is parsed, once, with its whole body — for every length, 0 included
 
-/-- **A zero-length chunk is never handed to its parser**: `ReadChunkData` with nothing remaining goes straight
-    to the CRC field (`stream.rs:743-745`); the decoder is unchanged except for `state`.  So the
-    checks above (second IHDR, second PLTE, fcTL fields, …) do not apply to empty chunks. -/
-theorem empty_chunk_unparsed (cfg : Cfg) (d : Dec) (t : ChunkType) (buf : Bytes) (h : d.remaining = 0) :
-    stepRead d t buf = .ok (0, .nothing, { d with state := some (.u32 (.crc t) []) }) ∧
-    nextState cfg d (.readChunkData t) buf = .ok (0, .nothing, { d with state := some (.u32 (.crc t) []) }) := by
-  constructor
-  · unfold stepRead; rw [if_pos h]
-  · unfold nextState stepRead; simp only; rw [if_pos h]
+The invariant established by the repair f31d047 ("a chunk of length zero is parsed like any other chunk"): the type
+step sends a buffered chunk with an EMPTY body straight to `ParseChunkData`, so the "skip to the CRC" arm of
+`ReadChunkData` (`remaining = 0`, `stream.rs:743-745`) is dead (`StInv`: `ReadChunkData` always has something
+remaining) and the only way into the CRC field of a buffered chunk is a successful `parse_chunk`. -/
 
-/-- the type step of a non-data chunk announced with length 0 leads to exactly that situation, with
-    `info`, the sequencing flags and the limits untouched -/
-theorem empty_chunk_begin (cfg : Cfg) (d d1 : Dec) (b0 b1 b2 b3 : UInt8)
+/-- **The chunk-state invariant** `StInv` (`ReadChunkData(t)`: something remains and `t` is not a data chunk;
+    `ParseChunkData(t)`: `t` is not a data chunk; `ImageData(t)`: `t` is IDAT or fdAT) holds for a new decoder, is
+    preserved by every successful `next_state` call, hence holds after every run -/
+theorem chunk_state_invariant (cfg : Cfg) :
+    (∀ opts, StInv (Dec.new opts)) ∧
+    (∀ (d d' : Dec) (st : St) (buf : Bytes) (n : Nat) (ev : Ev), d.state = some st → StInv d →
+      nextState cfg d st buf = .ok (n, ev, d') → StInv d') ∧
+    (∀ (f : Nat) (d : Dec) (buf : Bytes), StInv d → StInv (run cfg f d buf).1) :=
+  ⟨stInv_new, fun _ _ _ _ _ _ hs hi h => nextState_stInv hs hi h, run_stInv cfg⟩
+
+/-- **The body is collected completely and verbatim.**  (begin) after `ChunkBegin(len, t)` of a non-data chunk:
+    `raw_bytes` is empty, `remaining = len`, and the state is `ParseChunkData(t)` if `len = 0`, `ReadChunkData(t)`
+    otherwise.  (read) a `ReadChunkData` step with something remaining reports nothing, consumes `n ≤ remaining`
+    bytes, appends exactly these to `raw_bytes`, and goes on reading, or to `ParseChunkData` when nothing remains or
+    the buffer is full.  (grow) `ParseChunkData` with something remaining only grows the buffer.  So when
+    `ParseChunkData` is reached with `remaining = 0`, `raw_bytes` is the concatenation of everything consumed since
+    `ChunkBegin`: the `len` bytes of the body. -/
+theorem chunk_body_collected (cfg : Cfg) :
+    (∀ (d d1 : Dec) (len : Nat) (b0 b1 b2 b3 : UInt8), be32 b0 b1 b2 b3 ≠ IDAT → be32 b0 b1 b2 b3 ≠ fdAT →
+      parseU32 cfg d (.type len) b0 b1 b2 b3 = .ok (.chunkBegin len (be32 b0 b1 b2 b3), d1) →
+      d1.raw = [] ∧ d1.remaining = len ∧ d1.info = d.info ∧
+      d1.state = some (if len = 0 then .parseChunkData (be32 b0 b1 b2 b3) else .readChunkData (be32 b0 b1 b2 b3))) ∧
+    (∀ (d d' : Dec) (t : ChunkType) (buf : Bytes) (n : Nat) (ev : Ev), d.remaining ≠ 0 →
+      nextState cfg d (.readChunkData t) buf = .ok (n, ev, d') →
+      ev = .nothing ∧ n ≤ d.remaining ∧ d'.raw = d.raw ++ buf.take n ∧ d'.remaining = d.remaining - n ∧
+      ((d'.state = some (.readChunkData t) ∧ d'.remaining ≠ 0) ∨ d'.state = some (.parseChunkData t))) ∧
+    (∀ (d d' : Dec) (t : ChunkType) (buf : Bytes) (n : Nat) (ev : Ev), d.remaining ≠ 0 →
+      nextState cfg d (.parseChunkData t) buf = .ok (n, ev, d') →
+      n = 0 ∧ ev = .partialChunk t ∧ d'.raw = d.raw ∧ d'.remaining = d.remaining ∧ d'.info = d.info ∧
+      d'.state = some (.readChunkData t)) := by
+  refine ⟨fun d d1 len b0 b1 b2 b3 h1 h2 h => ?_, fun d d' t buf n ev hrem h => ?_, fun d d' t buf n ev hrem h => ?_⟩
+  · obtain ⟨_, hc⟩ := parseU32_type_cases h
+    rcases hc with ⟨_, hev, _⟩ | ⟨_, _, st, d2, ha, rfl⟩
+    · cases hev
+    · rcases afterType_cases ha with ⟨a, _⟩ | ⟨a, _⟩ | ⟨_, _, rfl, rfl⟩
+      · exact absurd a h2
+      · exact absurd a h1
+      · exact ⟨rfl, rfl, rfl, rfl⟩
+  · exact stepRead_collect (d := { d with state := none }) hrem h
+  · exact stepParse_grow (d := { d with state := none }) hrem h
+
+/-- **Every completed buffered chunk went through `parse_chunk`, exactly once** (decoders satisfying `StInv`, i.e. all
+    decoders reached from a new one):
+    (1) `ChunkComplete(crc, t)` is reported by the CRC step of chunk `t` and by nothing else;
+    (2) the CRC field of a non-data chunk `t` is entered only by the parse step — `ParseChunkData(t)` with the whole body
+        collected (`remaining = 0`; for a chunk of length 0 this is the step right after `ChunkBegin`), `parse_chunk`
+        returned `Ok` on exactly that `raw_bytes`, nothing consumed;
+    (3) from the CRC field the machine only stays in it, moves on to the next chunk's length field, or finishes: it never
+        returns to `ParseChunkData`, so the chunk is parsed once;
+    (4) if `parse_chunk` fails the step fails (and poisons the decoder): no completion without a successful parse. -/
+theorem every_chunk_parsed (cfg : Cfg) (d d' : Dec) (st : St) (buf : Bytes) (n : Nat) (ev : Ev) (t : ChunkType)
+    (hs : d.state = some st) (hinv : StInv d) (h : nextState cfg d st buf = .ok (n, ev, d')) :
+    (∀ c, ev = .chunkComplete c t → ∃ acc, st = .u32 (.crc t) acc) ∧
+    (∀ acc', d'.state = some (.u32 (.crc t) acc') → t ≠ IDAT → t ≠ fdAT →
+      (∃ acc, st = .u32 (.crc t) acc) ∨
+      (st = .parseChunkData t ∧ d.remaining = 0 ∧ n = 0 ∧ acc' = [] ∧ d'.raw = d.raw ∧
+        parseChunk cfg { d with state := none } t = .ok (ev, d'))) ∧
+    (∀ acc, st = .u32 (.crc t) acc →
+      (∃ acc', d'.state = some (.u32 (.crc t) acc') ∧ ev = .nothing) ∨
+      (d'.state = some (.u32 .length []) ∧ (ev = .nothing ∨ ∃ c, ev = .chunkComplete c t)) ∨
+      (d'.state = none ∧ ev = .imageEnd ∧ t = IEND)) := by
+  refine ⟨fun c hev => ?_, fun acc' hcrc h1 h2 => crc_entered_by_parse hs hinv h hcrc h1 h2, fun acc hst => ?_⟩
+  · subst hev; exact chunkComplete_only_at_crc h
+  · subst hst; exact crc_step_leaves_chunk h
+
+/-- (4) of `every_chunk_parsed`: a failing `parse_chunk` fails the `ParseChunkData` step -/
+theorem parse_failure_is_fatal (cfg : Cfg) (d : Dec) (t : ChunkType) (buf : Bytes) (e : Err) (hrem : d.remaining = 0)
+    (h : parseChunk cfg { d with state := none } t = .error e) :
+    nextState cfg d (.parseChunkData t) buf = .error e := by
+  unfold nextState
+  simp only
+  unfold stepParse
+  rw [if_pos (by exact hrem), h]
+  rfl
+
+/-- **An empty chunk is parsed**: the type step of a non-data chunk announced with length 0 goes straight to
+    `ParseChunkData`, and the next call (on any non-empty input) IS `parse_chunk` on the empty body — so a second
+    IHDR / PLTE is `DuplicateChunk`, an empty acTL / fcTL / IHDR is `ChunkTooShort`, an empty text chunk misses its
+    separator, whatever the body length -/
+theorem empty_chunk_parsed (cfg : Cfg) (d d1 : Dec) (b0 b1 b2 b3 : UInt8) (buf : Bytes)
     (h1 : be32 b0 b1 b2 b3 ≠ IDAT) (h2 : be32 b0 b1 b2 b3 ≠ fdAT)
     (h : parseU32 cfg d (.type 0) b0 b1 b2 b3 = .ok (.chunkBegin 0 (be32 b0 b1 b2 b3), d1)) :
-    d1.state = some (.readChunkData (be32 b0 b1 b2 b3)) ∧ d1.remaining = 0 ∧ d1.info = d.info ∧
-    d1.readyIdat = d.readyIdat ∧ d1.readyFdat = d.readyFdat ∧ d1.seqNo = d.seqNo ∧ d1.limit = d.limit := by
-  obtain ⟨_, hc⟩ := parseU32_type_cases h
-  rcases hc with ⟨_, hev, _⟩ | ⟨_, _, st, d2, ha, rfl⟩
-  · cases hev
-  · rcases afterType_cases ha with ⟨a, _⟩ | ⟨a, _⟩ | ⟨_, _, rfl, rfl⟩
-    · exact absurd a h2
-    · exact absurd a h1
-    · exact ⟨rfl, rfl, rfl, rfl, rfl, rfl, rfl⟩
+    d1.state = some (.parseChunkData (be32 b0 b1 b2 b3)) ∧ d1.raw = [] ∧ d1.remaining = 0 ∧
+    nextState cfg d1 (.parseChunkData (be32 b0 b1 b2 b3)) buf =
+      (parseChunk cfg { d1 with state := none } (be32 b0 b1 b2 b3)).map fun (ev, d) => (0, ev, d) := by
+  obtain ⟨hraw, hrem, _, hst⟩ := (chunk_body_collected cfg).1 d d1 0 b0 b1 b2 b3 h1 h2 h
+  refine ⟨by simpa using hst, hraw, hrem, ?_⟩
+  simp only [nextState, stepParse, hrem, if_true]
+
+/-- IEND (always empty) is handed to `parse_chunk` too, which knows no parser for it and reports `PartialChunk(IEND)`
+    with the decoder unchanged (the `ImageEnd` follows at the CRC: `no_image_data`) -/
+theorem iend_parsed_as_unknown (cfg : Cfg) (d : Dec) :
+    parseChunk cfg d IEND = .ok (.partialChunk IEND, d.atCrc IEND) :=
+  parseChunk_of_ok (dispatch_unknown cfg (d.atCrc IEND) IEND (Or.inl (by decide)))
+
+/-- an acTL body shorter than 8 bytes (the empty one included) is refused -/
+theorem actl_short_rejected (d : Dec) (h : d.raw.length < 8) : ∃ e, parseActl d = .error e := by
+  rcases exists_error_or_ok (parseActl d) with he | ⟨⟨d', ev⟩, hok⟩
+  · exact he
+  · exfalso
+    unfold parseActl at hok
+    simp only [bind, Except.bind, throw, throwThe, MonadExceptOf.throw, withInfo] at hok
+    repeat' split at hok
+    all_goals first
+      | (cases hok; done)
+      | (rename_i _ _ v1 e1 _ v2 e2 _ _ _
+         obtain ⟨_, _, _, _, hb1, _⟩ := rdU32_some (v := v1.1) (r := v1.2) (eofOr_ok.mp e1)
+         obtain ⟨_, _, _, _, hb2, _⟩ := rdU32_some (v := v2.1) (r := v2.2) (eofOr_ok.mp e2)
+         rw [hb1, hb2] at h
+         simp only [List.length_cons] at h
+         omega)
 
 /-! ## non-vacuity -/
 section examples
@@ -477,12 +570,32 @@ example :
     (runF toyCfg d0 (sig ++ chunk IHDR [0, 0, 0, 1, 0, 0, 0, 1, 8, 0, 0, 0])).2.2 = some (.format "ChunkTooShort") := by
   decide +kernel
 
-/-- **FINDING**: an EMPTY second IHDR (and an empty second PLTE) is accepted: the stream decodes without error -/
-theorem empty_second_ihdr_accepted :
-    (runF toyCfg d0 (sig ++ ihdr ++ chunk IHDR [] ++ chunk PLTE [1, 2, 3] ++ chunk PLTE [] ++ idat ++ iend)).2.2 = none ∧
-    (runF toyCfg d0 (sig ++ ihdr ++ chunk IHDR [] ++ chunk PLTE [1, 2, 3] ++ chunk PLTE [] ++ idat ++ iend)).1.out = [7, 9] ∧
+/-- **Empty chunks are parsed** (repaired in f31d047; before, all of these streams decoded without error): an EMPTY second
+    IHDR and an EMPTY second PLTE are `DuplicateChunk`; an empty IHDR / acTL / fcTL is `ChunkTooShort`; an empty tEXt
+    misses its separator; an empty eXIf is stored as the empty block; an empty unknown chunk is still harmless -/
+example :
+    (runF toyCfg d0 (sig ++ ihdr ++ chunk IHDR [] ++ idat ++ iend)).2.2 = some (.format "DuplicateChunk IHDR") ∧
+    (runF toyCfg d0 (sig ++ ihdr ++ chunk PLTE [1, 2, 3] ++ chunk PLTE [] ++ idat ++ iend)).2.2 =
+      some (.format "DuplicateChunk PLTE") ∧
     (runF toyCfg d0 (sig ++ ihdr ++ chunk PLTE [1, 2, 3] ++ chunk PLTE [4, 5, 6] ++ idat ++ iend)).2.2 =
-      some (.format "DuplicateChunk PLTE") := by
+      some (.format "DuplicateChunk PLTE") ∧
+    (runF toyCfg d0 (sig ++ chunk IHDR [])).2.2 = some (.format "ChunkTooShort") ∧
+    (runF toyCfg d0 (sig ++ ihdr ++ chunk acTL [])).2.2 = some (.format "ChunkTooShort") ∧
+    (runF toyCfg d0 (sig ++ ihdr ++ chunk fcTL [])).2.2 = some (.format "ChunkTooShort") ∧
+    (runF toyCfg d0 (sig ++ ihdr ++ chunk tEXt [])).2.2 = some (.format "MissingNullSeparator") ∧
+    ((runF toyCfg d0 (sig ++ ihdr ++ chunk eXIf [])).1.info.bind (·.exif)) = some [] ∧
+    (runF toyCfg d0 (sig ++ ihdr ++ chunk tIME [] ++ idat ++ iend)).2.2 = none ∧
+    (runF toyCfg d0 (sig ++ ihdr ++ chunk tIME [] ++ idat ++ iend)).1.out = [7, 9] := by
+  decide +kernel
+
+/-- NOTE (consequence of f31d047, kept visible): an EMPTY FIRST PLTE is now parsed and accepted — `parse_plte` does not
+    validate the length — so the palette is `Some([])` where it used to stay `None`; likewise an empty (malformed) first
+    iCCP now sets `have_iccp` and makes a later well-formed iCCP ignored -/
+example :
+    ((runF toyCfg d0 (sig ++ ihdr ++ chunk PLTE [])).1.info.bind (·.palette)) = some [] ∧
+    (runF toyCfg d0 (sig ++ ihdr ++ chunk PLTE [])).2.2 = none ∧
+    ((runF toyCfg d0 (sig ++ ihdr ++ chunk iCCP [] ++ chunk iCCP [97, 0, 0, 1, 2, 3])).1.info.bind (·.icc)) = none ∧
+    ((runF toyCfg d0 (sig ++ ihdr ++ chunk iCCP [97, 0, 0, 1, 2, 3])).1.info.bind (·.icc)) = some [1, 2, 3] := by
   decide +kernel
 
 /-- IDAT, another chunk, IDAT: the second IDAT is refused; the type step of the intervening chunk is the flush -/
@@ -519,10 +632,13 @@ example :
     (runF toyCfg d0 (sig ++ ihdr ++ iend)).1.state = none := by
   decide +kernel
 
-/-- the actions of the valid toy stream -/
+/-- the actions of the valid toy stream (IEND, always empty, is parsed too: `iend_parsed_as_unknown`) and its events -/
 example : runL toyCfg 400 d0 good =
     [.tau, .tau, .tau, .begin IHDR, .tau, .parsed IHDR, .tau, .tau, .begin IDAT, .tau, .tau, .tau, .flush IEND,
-     .begin IEND, .tau, .tau] := by
+     .begin IEND, .parsed IEND, .tau] ∧
+    (runF toyCfg d0 good).2.1 =
+      [.chunkBegin 13 IHDR, .header 1 1 8 0 false, .chunkComplete 0 IHDR, .chunkBegin 3 IDAT, .imageData,
+       .chunkComplete 0 IDAT, .imageDataFlushed, .chunkBegin 0 IEND, .partialChunk IEND, .imageEnd] := by
   decide +kernel
 
 end examples
